@@ -146,6 +146,37 @@ def _graph_info_table(ctx, R, gi):
                   f'the consumers of tensor {k} are {cons} (-1 = the graph output)')
 
 
+def _is_subgraph_id(ctx, cg, cls, f, e, depth):
+  """Is expression `e` of method `f` the subgraph id of the instruction being applied? Accepted: `<x>.subgraph_id`; a
+  parameter that every caller inside the class feeds with an accepted expression; a local assigned once from an accepted
+  expression; the index of `for i, _ in enumerate(...)` (the creation loop over all subgraphs); for a 2-d table the first
+  component of the index."""
+  if depth > 4:
+    return False
+  if isinstance(e, ast.Tuple) and e.elts:
+    e = e.elts[0]
+  if isinstance(e, ast.Attribute):
+    return e.attr == 'subgraph_id'
+  if not isinstance(e, ast.Name):
+    return False
+  if e.id in f.pos_params:
+    pos = f.pos_params.index(e.id) - (1 if f.is_method else 0)
+    sites = [s for s in cg.callers.get(f.fq, []) if s.caller.cls is cls]
+    if not sites:
+      return False
+    for site in sites:
+      a = site.node.args[pos] if 0 <= pos < len(site.node.args) else next((k.value for k in site.node.keywords if k.arg == e.id), None)
+      if a is None or not _is_subgraph_id(ctx, cg, cls, site.caller, a, depth + 1):
+        return False
+    return True
+  for n in common.walk_no_nested(f.node):
+    if isinstance(n, ast.For) and isinstance(n.iter, ast.Call) and common.call_name(n.iter) == 'enumerate' and isinstance(n.target, ast.Tuple) \
+        and isinstance(n.target.elts[0], ast.Name) and n.target.elts[0].id == e.id:
+      return True
+  defs = [d for d in defuse.own_assignments(f.node).get(e.id, []) if d is not None]
+  return len(defs) == 1 and _is_subgraph_id(ctx, cg, cls, f, defs[0], depth + 1)
+
+
 def r1_performer_indices(ctx):
   R = 'C19.R1'
   ctx.rule(R, 'the performer addresses op-id maps and subgraphs with the instruction\'s own subgraph id', floor=4)
@@ -158,20 +189,8 @@ def r1_performer_indices(ctx):
     ctx.instance(R)
     for s in subs:
       idx = ast.unparse(s.slice)
-      ok = idx in ('transformation_inst.subgraph_id', 'subgraph_id')
+      ok = _is_subgraph_id(ctx, cg, cls, f, s.slice, 0)
       ctx.check(R, ok, s, f, s, f'`{ast.unparse(s)}`: a per-subgraph table is indexed with `{idx}` instead of the subgraph id of the instruction being applied')
-    if 'subgraph_id' in f.pos_params:
-      pos = f.pos_params.index('subgraph_id') - 1
-      for site in cg.callers.get(f.fq, []):
-        if site.caller.cls is not cls:
-          continue
-        a = None
-        if 0 <= pos < len(site.node.args):
-          a = ast.unparse(site.node.args[pos])
-        for k in site.node.keywords:
-          if k.arg == 'subgraph_id':
-            a = ast.unparse(k.value)
-        ctx.check(R, a in ('transformation_inst.subgraph_id', 'subgraph_id'), site.node, site.caller, site.node, f'{name}() is called with subgraph id `{a}`')
   # instructions carry the subgraph id of the tensor's own graph info
   f = ctx.repo.func(f'{TIG}._quant_params_to_transformation_insts')
   ctx.instance(R)
